@@ -414,7 +414,8 @@ def monitor_calls(n, cd_s, trace):
                     return Hit("not-opened:threshold",
                                "%d consecutive gateway failures >= %d open the circuit for %d s" % (k_since, n, cd_s),
                                "call at t=%d was routed" % t)
-                impl_bypassed_in_window = True
+                if e["allowed"] is True:
+                    impl_bypassed_in_window = True
             elif circuit[0] == "maybe":
                 if e["routed"]:
                     circuit = ("closed",)
@@ -456,7 +457,9 @@ def expected_exclusion(block, allow, h, flavour, answers):
     """True = the property demands 'not routed', False = no demand.
     answers = every resolver answer given for this host so far in the filter's life."""
     if flavour is not None:
-        return False                       # per-request header: explicit override (input of the statement)
+        # per-request header: "true" is the explicit override (input of the statement), "false" the
+        # explicit per-request exclusion; other values: no demand
+        return flavour == "false"
     if allow is not None:
         return h not in allow              # an allow list is in force: everything else is excluded
     if block is not None and h in block:
@@ -465,7 +468,12 @@ def expected_exclusion(block, allow, h, flavour, answers):
     if q is not None:
         return is_private_int(quad_int(q))
     if h[0] == "v6":
-        return False
+        # an IPv6 literal: loopback / unique-local / link-local / unspecified / mapped-private
+        # destinations are just as unreachable for the gateway
+        ip = ipaddress.ip_address(host_str(h).split("%")[0])
+        m = ip.ipv4_mapped
+        return bool(ip.is_loopback or ip.is_private or ip.is_link_local or ip.is_unspecified
+                    or (m is not None and is_private_int(int(m))))
     # a name: demanded only when every answer seen so far points to a private address
     qs = [tuple(int(x) for x in a[1].split(".")) for a in answers if a[0] == "quad"]
     return bool(qs) and len(qs) == len(answers) and all(is_private_int(quad_int(q)) for q in qs)
@@ -666,8 +674,9 @@ def monitor_queries(case):
             return Hit("decision-raises:%s:%s" % (o[1], what),
                        "is_allowed returns a boolean for every destination", "is_allowed(%r) raised %s" % (host_str(h), o[1]))
         if expected_exclusion(block, allow, h, q["hdr"], answers.get(h, [])) and o[1] is not False:
-            why = "private/loopback" if (allow is None and not (block and h in block)) else "allow/block list"
-            return Hit("excluded-destination-allowed:" + why.split("/")[0],
+            why = ("header x-lunar-allow: false" if q["hdr"] is not None else
+                   "private/loopback" if (allow is None and not (block and h in block)) else "allow/block list")
+            return Hit("excluded-destination-allowed:" + why.split("/")[0].split(" ")[0],
                        "%r (%s) is never routed through the gateway" % (host_str(h), why), "is_allowed = True")
     return None
 
@@ -776,6 +785,18 @@ def record_hit(o, suite, idx, h, case):
     o.hit(suite, idx, h.sig, h.demanded, h.observed, case)
 
 
+_WRITTEN_FOR = {}
+
+
+def write_for(h):
+    """cases with a monitor hit are written as correspondence cases too (the first 20 per
+    signature), so that a replay also says what the model answers for that very input"""
+    if not h:
+        return False
+    _WRITTEN_FOR[h.sig] = _WRITTEN_FOR.get(h.sig, 0) + 1
+    return _WRITTEN_FOR[h.sig] <= 20
+
+
 def do_ops_case(o, case, record=True):
     exec_ops(case)
     idx = o.case("failsafe", coq_ops_case(case), case, any(x == ["read", False] for x in case["observed"])) if record else -1
@@ -788,10 +809,10 @@ def do_ops_case(o, case, record=True):
 def do_event_case(o, ctor, t0, events, record=True):
     case, trace = exec_events_on_object(ctor, t0, events)
     nontrivial = any(not e["routed"] and e["allowed"] for e in trace)
-    idx = o.case("failsafe", coq_ops_case(case), case, nontrivial) if (record and not o.search()) else -1
-    o.monitor_checked()
     n, cd = configured(ctor)
     h = monitor_ops(case) or monitor_calls(n, cd, trace)
+    idx = o.case("failsafe", coq_ops_case(case), case, nontrivial) if (record or write_for(h)) else -1
+    o.monitor_checked()
     if h:
         record_hit(o, "failsafe", idx, h, case)
     return nontrivial
@@ -800,9 +821,9 @@ def do_event_case(o, ctor, t0, events, record=True):
 def do_filter_case(o, case, record=True):
     exec_queries(case)
     nontrivial = any(x == ["decision", False] for x in case["observed"]) and any(x == ["decision", True] for x in case["observed"])
-    idx = o.case("filter", coq_filter_case(case), case, nontrivial) if record else -1
-    o.monitor_checked(len(case["queries"]))
     h = monitor_queries(case)
+    idx = o.case("filter", coq_filter_case(case), case, nontrivial) if (record or write_for(h)) else -1
+    o.monitor_checked(len(case["queries"]))
     if h:
         record_hit(o, "filter", idx, h, case)
 
@@ -810,10 +831,10 @@ def do_filter_case(o, case, record=True):
 def do_hook_case(o, case, record=True):
     case, trace = exec_hook(case)
     nontrivial = any(e["allowed"] and not e["routed"] for e in trace)
-    idx = o.case("hook", coq_hook_case(case), case, nontrivial) if (record and not o.search()) else -1
-    o.monitor_checked()
     n, cd = configured(case["ctor"])
     h = monitor_calls(n, cd, trace) or monitor_hook_extra(trace)
+    idx = o.case("hook", coq_hook_case(case), case, nontrivial) if (record or write_for(h)) else -1
+    o.monitor_checked()
     if h:
         record_hit(o, "hook", idx, h, case)
     return nontrivial
@@ -844,7 +865,7 @@ def gen_failsafe(o):
     # (1) every sequence of call events (5 events) x (n, c) in {1..3}^2, driven through the
     #     `with fail_safe: if state_ok and allowed` pattern; all of them are monitored, the
     #     shorter ones (and a sample of the longest) are also written as correspondence cases
-    max_len = o.scale(6, 7, 7)
+    max_len = o.scale(6, 7, 5)
     rec_len = o.scale(4, 5, 0)
     pairs = [(n, cd) for n in (1, 2, 3) for cd in (1, 2, 3)]
     for (n, cd) in pairs:
@@ -878,14 +899,14 @@ def gen_failsafe(o):
     # (3) raw operations in any order (not only the hooks' pattern)
     raw = ["none", "handled", "other", "vok", "verr", "read", "adv"]
     for (n, cd) in [(1, 1), (2, 1), (1, 2), (2, 3)]:
-        for seq in seqs(raw, 1, o.scale(3, 5, 0)):
+        for seq in seqs(raw, 1, o.scale(3, 4, 0)):
             if o.search():
                 break
             ops = [[s, TICK_MS if s == "adv" else 0] for s in seq] + [["read", 0]]
             do_ops_case(o, {"ctor": direct(n, cd), "t0": T0, "ops": ops})
             o.count("failsafe/raw len=%d" % len(seq))
     # (4) random longer histories with sub-second instants around the cool-down edge
-    for i in range(o.scale(1500, 20000, 30000)):
+    for i in range(o.scale(1500, 20000, 12000)):
         n, cd = r.range(1, 4), r.range(1, 3)
         ct = direct(n, cd) if r.chance(2, 3) else env(str(n), str(cd))
         evs = []
@@ -913,7 +934,7 @@ def gen_filter(o):
     # (1) every first octet x boundary second octets (full sweep of the second octet: thorough)
     b_quick = [0, 1, 15, 16, 17, 31, 32, 100, 127, 167, 168, 169, 255]
     bs = list(range(256)) if o.thorough() else b_quick
-    tails = [(0, 0), (0, 1), (255, 255)] if not o.thorough() else [(0, 0), (7, 9)]
+    tails = [(0, 0), (255, 255)] if not o.thorough() else [(0, 0), (7, 9)]
     for a in range(256):
         qs = [{"host": ["v4", a, b, cc, d], "hdr": None, "res": ["fail"]} for b in bs for (cc, d) in tails]
         for i in range(0, len(qs), 64):
@@ -962,7 +983,7 @@ def gen_filter(o):
             o.count("filter/list combinations", len(qs))
     # (5) random mixes
     pool = dests + [["v4", 172, 16, 0, 1], ["v4", 172, 32, 0, 1], ["v4", 127, 9, 9, 9], ["name", 3], ["junk", 6], ["junk", 7], ["v6", 3]]
-    for i in range(o.scale(300, 6000, 8000)):
+    for i in range(o.scale(300, 6000, 4000)):
         block = r.pick(lists) if r.chance(1, 2) else ([r.pick(pool) for _ in range(r.range(1, 3))] if r.chance(1, 2) else None)
         allow = r.pick(lists) if r.chance(1, 3) else ([r.pick(pool) for _ in range(r.range(1, 3))] if r.chance(1, 4) else None)
         qs = []
@@ -981,7 +1002,7 @@ def gen_hook(o):
     r = o.rng.fork(3)
     # every sequence over {ok, conn/hdr error, other exception, blocked destination, tick}
     alphabet = ["ok", "err", "other", "blocked", "tick"]
-    max_len = o.scale(5, 6, 6)
+    max_len = o.scale(5, 6, 4)
     rec_len = o.scale(4, 4, 0)
     for (n, cd) in [(1, 2), (2, 1), (2, 3), (3, 1), (1, 3), (3, 2)]:
         for seq in seqs(alphabet, 1, max_len):
@@ -1001,7 +1022,7 @@ def gen_hook(o):
             o.count("hook/events len=%d" % len(seq))
     # destinations of every class (IPv6 literal, bad label, allow list in force, header overrides)
     hcs = list(HOOK_HOSTS)
-    for i in range(o.scale(1200, 15000, 20000)):
+    for i in range(o.scale(1200, 15000, 8000)):
         n, cd = r.range(1, 3), r.range(1, 3)
         ct = direct(n, cd) if r.bool() else env(str(n), str(cd))
         allow = None if r.chance(3, 4) else [list(HOOK_HOSTS["pubname"][0]), list(HOOK_HOSTS["private"][0])]
@@ -1019,9 +1040,15 @@ def gen_hook(o):
 def main():
     o = c.Out("C19")
     req = "From Verif Require Import C19.Model."
-    o.declare_suite("failsafe", req, "case_failsafe", "run_failsafe")
-    o.declare_suite("filter", req, "case_filter", "run_filter")
-    o.declare_suite("hook", req, "case_hook", "run_hook_case")
+    sfx = ""
+    if os.environ.get("C19_MODEL") == "legacy":
+        # manual cross-check only: compare the UNREPAIRED tree with theories/C19/Legacy.v
+        req += " From Verif Require Import C19.Legacy."
+        sfx = "_legacy"
+        o.note("C19_MODEL=legacy: cases are compared with the model of the code as found (Legacy.v)")
+    o.declare_suite("failsafe", req, "case_failsafe", "run_failsafe" + sfx)
+    o.declare_suite("filter", req, "case_filter", "run_filter" + sfx)
+    o.declare_suite("hook", req, "case_hook", "run_hook_case" + sfx)
     o.rule("failsafe: every sequence of the 5 call events (gateway ok / gateway error / other exception / "
            "filtered destination / 1 s tick) up to a length bound x (n, c) in {1..3}^2 driven through the hooks' "
            "`with fail_safe` pattern (all monitored, the shorter ones also compared with the model), the "
